@@ -11,6 +11,7 @@ import JunoModel.C12.ProofsRunTrace
 import JunoModel.C12.ProofsCommitLast
 import JunoModel.C12.ProofsDriver
 import JunoModel.C12.ProofsLock
+import JunoModel.C12.ProofsHandover
 /-!
 C12 — property theorems (statements only; the proofs are in `Proofs*.lean`).
 
@@ -416,6 +417,79 @@ theorem ignored_timeout_took_pending_commit_before_cd6cea9 :
     (((Machine.new exEnv 3 0).run exEnv pendingCommitPrefix).1.step exEnv (.timeout .propose 0 1)).2 = [] := by
   decide
 
+
+/-! ## round 6: replay = live for messages that arrive before their height is started
+
+`VoteCounter.addEntry` / `feed` (`ProofsHandover.lean`): what giving a WAL message entry (proposal,
+prevote, precommit) to the state machine does to the vote counter. The harness compares the real vote
+counter (all private fields) with the model's in exactly these positions (`placement`, `earlyreplay`
+families). -/
+
+/-- **The hand-over commutes with counting.** For ANY vote counter and any list of proposals / prevotes
+/ precommits of the NEXT height (any senders, rounds, duplicates, equivocations, refused ones):
+counting them in the future-height buffer and then handing over (`StartNewHeight`) gives exactly the
+vote counter obtained by handing over first and counting them at the then-current height — every
+field: round entries, tallies, ballot sets, `uncountedProposerPower`, thresholds, remaining buffer. -/
+theorem next_height_handover_commutes (env : Env) (v : VoteCounter) (es : List WalEntry)
+    (h : ∀ e ∈ es, e.isMsgOf (v.cur + 1)) :
+    (v.feed env es).startNewHeight env = (v.startNewHeight env).feed env es :=
+  feed_handover env es v h
+
+/-- **Messages two or more heights ahead survive a hand-over.** Counting a message of a height beyond the
+next one and handing over commute as well: the buffer of that height stays in the future-height map,
+with exactly the contents it would have had if the message had arrived after the hand-over. (A
+`StartNewHeight` that empties the whole map instead of removing the adopted height breaks this; the WAL
+still holds the entries, so a restarted node counts them and votes differently: `earlyreplay`, depth 2.) -/
+theorem far_future_message_survives_handover (env : Env) (v : VoteCounter) (e : WalEntry) (h : Height)
+    (hh : h > v.cur + 1) (he : e.isMsgOf h) :
+    (v.addEntry env e).startNewHeight env = (v.startNewHeight env).addEntry env e :=
+  addEntry_handover_far env v e h hh he
+
+/-- **An early message is logged and buffered, nothing else** (live side). A started machine that is
+given a message of the next height through any entry point: the vote counter is updated by
+`AddProposal/AddPrevote/AddPrecommit` (whether accepted or refused), the Tendermint state does not
+move, and the returned list contains no broadcast and no commit (only the WAL entry and possibly a
+`TriggerSync`). -/
+theorem early_message_is_logged_and_buffered (env : Env) (m : Machine) (hs : m.isHeightStarted = true)
+    (hc : m.vc.cur = m.state.height) (e : WalEntry) (he : e.isMsgOf (m.state.height + 1)) :
+    (m.step env (.wal e)).1.vc = m.vc.addEntry env e ∧ (m.step env (.wal e)).1.state = m.state ∧
+    (m.step env (.wal e)).1.isHeightStarted = true ∧
+    (∀ a ∈ (m.step env (.wal e)).2, a.requiresWALFlush = false) :=
+  early_entry_live env m hs hc e he
+
+/-- The accepted ones ARE logged: for an accepted proposal / prevote of another height the list is
+exactly the WAL entry (so it is in the log a restarted node replays); a refused message leaves nothing. -/
+theorem early_message_reaches_the_wal (env : Env) (m : Machine) (hs : m.isHeightStarted = true) :
+    (∀ p, p.height ≠ m.state.height → (m.vc.addProposal env p).2 = true →
+      (m.step env (.proposal p)).2 = [.writeWAL (.proposal p)]) ∧
+    (∀ v, v.height ≠ m.state.height → (m.vc.addVote env v .prevote).2 = true →
+      (m.step env (.prevote v)).2 = [.writeWAL (.prevote v)]) ∧
+    (∀ v, m.vc.cur = m.state.height → v.height > m.state.height → (m.vc.addVote env v .precommit).2 = true →
+      ((m.step env (.precommit v)).2 = [.writeWAL (.precommit v)] ∨
+       ∃ s e, (m.step env (.precommit v)).2 = [.writeWAL (.precommit v), .triggerSync s e])) :=
+  ⟨fun p hp hok => by
+      show (m.processProposal env p).2 = _
+      rw [(Juno.C12.early_message_is_logged_and_buffered env m hs).1 p hp hok],
+   fun v hv hok => by
+      show (m.processPrevote env v).2 = _
+      rw [(Juno.C12.early_message_is_logged_and_buffered env m hs).2 v hv hok],
+   fun v hc hv hok => (early_precommit_is_logged_and_buffered env m hs hc v hv hok).2.2.2⟩
+
+/-- **replay = live.** `m`: a started machine at height `h` whose future buffer is still empty; `es`:
+any messages of height `h+1`. LIVE: `m` is given `es`, then the commit rule fires (`doCommitValue`).
+REPLAY: a machine created at `h+1` (what a restart builds from the chain height) is given the same
+entries in front of the `Start` entry, as the WAL store returns them. Both machines then have the SAME
+vote counter and the SAME Tendermint state and are not started — so `ProcessStart(0)`, the next call in
+both worlds, evaluates the rules over identical data: what the node voted before the crash is what it
+votes after it. (A guard `!isHeightStarted || !AddX(p)` breaks `early_entry_replayed`, the replay half.) -/
+theorem replay_rebuilds_the_live_machine (env : Env) (m : Machine) (es : List WalEntry) (cp : CachedProposal)
+    (hs : m.isHeightStarted = true) (hc : m.vc.cur = m.state.height) (hf : m.vc.future = [])
+    (he : ∀ e ∈ es, e.isMsgOf (m.state.height + 1)) :
+    let live := ((m.run env (es.map .wal)).1.doCommitValue env cp).1
+    let rep := ((Machine.new env m.nodeAddr (m.state.height + 1)).run env (es.map .wal)).1
+    live.vc = rep.vc ∧ live.state = rep.state ∧ live.isHeightStarted = false ∧ rep.isHeightStarted = false :=
+  Juno.C12.replay_rebuilds_the_live_machine env m es cp hs hc hf he
+
 /-! ## non-vacuity -/
 
 -- a disciplined run of the model that locks, commits and starts the next height
@@ -461,5 +535,21 @@ example : (((Machine.new exEnv 3 0).run exEnv relockPrefix).1.state.lockedRound 
 -- `lock_is_the_last_value_precommit` on a disciplined run with a re-lock (rounds 0 and 2)
 example : Disciplined exEnv (Machine.new exEnv 3 0) (relockPrefix ++ relockSuffix) := by
   simp only [relockPrefix, relockSuffix, List.cons_append, List.nil_append, Disciplined, InputOK, and_true, true_and]; decide
+
+-- round 6: validator 1 at height 0 (started) is given the proposal of (1,0) and two prevotes early; live
+-- hand-over = replay on a fresh machine at height 1: the proposal and a tally of 2 are there in both
+example : ((Machine.new exEnv 1 0).run exEnv [.start 0]).1.isHeightStarted = true ∧
+    ((Machine.new exEnv 1 0).run exEnv [.start 0]).1.vc.future = [] ∧
+    ((Machine.new exEnv 1 0).run exEnv [.start 0]).1.vc.cur = ((Machine.new exEnv 1 0).run exEnv [.start 0]).1.state.height := by
+  decide
+example : ∀ e ∈ earlyEntries, e.isMsgOf (((Machine.new exEnv 1 0).run exEnv [.start 0]).1.state.height + 1) := by
+  decide
+example : ((((Machine.new exEnv 1 1).run exEnv (earlyEntries.map .wal)).1.vc.getProposal 0).isSome = true) ∧
+    (((Machine.new exEnv 1 1).run exEnv (earlyEntries.map .wal)).1.vc.hasQuorumForAny 0 .prevote = false) ∧
+    ((((Machine.new exEnv 1 0).run exEnv [.start 0]).1.vc.feed exEnv earlyEntries).startNewHeight exEnv).getProposal 0
+      = ((Machine.new exEnv 1 1).run exEnv (earlyEntries.map .wal)).1.vc.getProposal 0 := by decide
+-- a prevote two heights ahead is still in the buffer after the hand-over
+example : (lookupA 2 (((VoteCounter.new exEnv 0).addEntry exEnv (.prevote ⟨2, 0, 0, some 16⟩)).startNewHeight exEnv).future).isSome = true := by
+  decide
 
 end Juno.C12.Props
